@@ -570,7 +570,7 @@ func (w *Worker) runPath(h *Harness, prefix []Decision) (end string, err error) 
 		np := h.Stats.Paths
 		h.mu.Unlock()
 		// keep the first witnessN paths, then a deterministic thinning sample
-		keepWit = np < w.eng.witnessN || (w.eng.witnessN > 0 && pathHash(w.decisions)%uint64(np/4+1) == 0 && np%3 == 0)
+		keepWit = np < w.eng.witnessN || (w.eng.witnessN > 0 && (pathHash(w.decisions)^uint64(w.eng.seed)*0x9e3779b97f4a7c15)%uint64(np/4+1) == 0 && np%3 == 0)
 		if w.hasModel && !keepWit {
 			keepWit = false
 		}
